@@ -146,6 +146,27 @@ theorem C07_refusal_window_ucs2 (d : List Nat) (ref : Nat) :
   ⟨fun h => C07_accepted_when_short_parts_suffice _ d 134 2 ref (by omega) (ucs2Boundary_backs d 134) (by omega),
    fun h => C07_refused_when_full_parts_do_not_suffice _ d 134 ref (by omega) (by omega)⟩
 
+/-- the same window for GB18030 (134 octets per part, a cut moves back at most 3 octets) and for
+    GSM 7-bit (153 septets per part, at most 1) -/
+theorem C07_refusal_window_gb18030 (d : List Nat) (ref : Nat) :
+    (d.length ≤ 33405 → ∃ parts, splitUnits gbBoundary d 134 ref = .ok parts) ∧
+    (34170 < d.length → splitUnits gbBoundary d 134 ref = .error .tooManyParts) :=
+  ⟨fun h => C07_accepted_when_short_parts_suffice _ d 134 3 ref (by omega) (gbBoundary_backs d 134) (by omega),
+   fun h => C07_refused_when_full_parts_do_not_suffice _ d 134 ref (by omega) (by omega)⟩
+
+theorem C07_refusal_window_gsm (d : List Nat) (ref : Nat) :
+    (d.length ≤ 38760 → ∃ parts, splitUnits gsmBoundary d 153 ref = .ok parts) ∧
+    (39015 < d.length → splitUnits gsmBoundary d 153 ref = .error .tooManyParts) :=
+  ⟨fun h => C07_accepted_when_short_parts_suffice _ d 153 1 ref (by omega) (gsmBoundary_backs d 153) (by omega),
+   fun h => C07_refused_when_full_parts_do_not_suffice _ d 153 ref (by omega) (by omega)⟩
+
+/-- the plain rule has no window: refused exactly beyond 255 full parts -/
+theorem C07_refusal_plain (d : List Nat) (per ref : Nat) (hper : 0 < per) :
+    (d.length ≤ 255 * per → ∃ parts, splitUnits noBoundary d per ref = .ok parts) ∧
+    (255 * per < d.length → splitUnits noBoundary d per ref = .error .tooManyParts) :=
+  ⟨fun h => C07_accepted_when_short_parts_suffice _ d per 0 ref hper (noBoundary_backs d per) (by simpa using h),
+   fun h => C07_refused_when_full_parts_do_not_suffice _ d per ref hper h⟩
+
 /-- inside the window the naive count ⌈n/per⌉ is not the number of parts: three surrogate pairs,
     capacity 6 → three parts, not two -/
 example : (cutPoints ucs2Boundary [0xD8, 0, 0xDC, 0, 0xD8, 0, 0xDC, 0, 0xD8, 0, 0xDC, 0] 6 13 0).length = 3 := by decide
@@ -240,6 +261,9 @@ open SmsVerif.C07
 #print axioms C07_refused_when_full_parts_do_not_suffice
 #print axioms C07_rules_back_up
 #print axioms C07_refusal_window_ucs2
+#print axioms C07_refusal_window_gb18030
+#print axioms C07_refusal_window_gsm
+#print axioms C07_refusal_plain
 #print axioms C07_parse_hdr6
 #print axioms C07_parse_hdr7
 #print axioms C07_parse_part
